@@ -1,3 +1,5 @@
+#[cfg(bpaf_verif)]
+use crate::verif::std;
 use crate::complete_gen::Complete;
 use std::ffi::OsStr;
 
